@@ -44,7 +44,7 @@ func main() {
 	runner.Main(runner.Config{
 		ID:    "C10",
 		Level: "fault_enumeration",
-		Rule: "seed streams: 6 small valid patches (rsync ops of every kind, whole-file ops, empty files, no old build, dirs+symlinks, one optimized patch with a bsdiff series), 5 signatures, 5 overlay streams, written by the real writers under none/gzip-1/brotli-1 framing. Enumerated exhaustively per reader: (a) every prefix length of every seed stream; (b) on the independently decoded message list: every integer/enum field of every non-container message <- {-1,0,1,count-1,count,count+1,2049,2^31,2^63-1,-2^63, each valid index} (enums: defined values, 2, 7, 2049, -1), bytes fields resized (empty, +1, past the old file), bool toggled, every message deleted / duplicated / swapped with its neighbour (missing, duplicated, moved end markers and headers; fewer/more block hashes), header compression nil / unregistered algorithm / any quality; thorough adds all pairs of field mutations within one file's series for three seeds and the optimizer with ForceMapAll. Mutated lists are re-framed with the harness codec so containers and declared lengths stay valid. Non-trivial = the reader gets past the containers: any message-level mutation, or a truncation that leaves both containers (signature: the container; overlay: magic+header) intact as judged by an independent tolerant decode of the prefix.",
+		Rule:  "seed streams: 6 small valid patches (rsync ops of every kind, whole-file ops, empty files, no old build, dirs+symlinks, one optimized patch with a bsdiff series), 5 signatures, 5 overlay streams, written by the real writers under none/gzip-1/brotli-1 framing. Enumerated exhaustively per reader: (a) every prefix length of every seed stream; (b) on the independently decoded message list: every integer/enum field of every non-container message <- {-1,0,1,count-1,count,count+1,2049,2^31,2^63-1,-2^63, each valid index} (enums: defined values, 2, 7, 2049, -1), bytes fields resized (empty, +1, past the old file), bool toggled, every message deleted / duplicated / swapped with its neighbour (missing, duplicated, moved end markers and headers; fewer/more block hashes), header compression nil / unregistered algorithm / any quality; all pairs (field x field, field x delete/duplicate/swap) of mutations of every overlay stream; thorough adds all such pairs within one file's series (every patch seed, uncompressed framing, patcher with each bowl and optimizer) and the optimizer with ForceMapAll. Mutated lists are re-framed with the harness codec so containers and declared lengths stay valid. Non-trivial = the reader gets past the containers: any message-level mutation, or a truncation that leaves both containers (signature: the container; overlay: magic+header) intact as judged by an independent tolerant decode of the prefix.",
 		Assumptions: []string{
 			"header mutations that swap one registered compression algorithm for another are not enumerated: the reader would then see ill-formed containers and arbitrary message lengths, which the property excludes",
 			"file contents are seeded pseudo-random (VERIF_SEED); the shape of seeds and mutations does not depend on the seed",
@@ -179,11 +179,15 @@ func (e *env) runCase(c Case, r *runner.Rec) {
 	if what == "" {
 		what = "valid seed stream"
 	}
+	listLabel := "messages after the containers"
+	if hasCut {
+		listLabel = "messages of the stream before truncation"
+	}
 	switch {
 	case o.hung:
 		// the goroutine (and its scratch files) are leaked on purpose
 		r.Outcome(c.Target + ":hang")
-		r.Failf("hang:"+c.Target, "%s: still running after %s (seed %s/%s); messages: %s", what, watchdogLimit, c.Seed, c.Comp, describeAll(msgs))
+		r.Failf("hang:"+c.Target, "%s: still running after %s (seed %s/%s); %s: %s", what, watchdogLimit, c.Seed, c.Comp, listLabel, describeAll(msgs))
 		return
 	case o.panicked:
 		if needDir {
@@ -194,7 +198,7 @@ func (e *env) runCase(c Case, r *runner.Rec) {
 			return
 		}
 		r.Outcome(c.Target + ":panic:" + o.site)
-		r.Failf("panic:"+o.site, "panic: %s | %s | seed %s/%s reader %s stage %s | messages after the containers: %s\n%s", o.pmsg, what, c.Seed, c.Comp, c.Target, o.stage, describeAll(msgs), o.stack)
+		r.Failf("panic:"+o.site, "panic: %s | %s | seed %s/%s reader %s stage %s | %s: %s\n%s", o.pmsg, what, c.Seed, c.Comp, c.Target, o.stage, listLabel, describeAll(msgs), o.stack)
 		return
 	}
 	if needDir {
@@ -203,7 +207,7 @@ func (e *env) runCase(c Case, r *runner.Rec) {
 	r.Outcome(c.Target + ":" + o.stage + ":" + errClass(o.err))
 	if len(c.Muts) == 0 && o.err != nil {
 		// guards against a vacuous run (every stream rejected up front)
-		r.Failf("harness:valid-seed-rejected", "the unmutated seed stream %s/%s was rejected by %s: %v", c.Seed, c.Comp, c.Target, o.err)
+		r.Failf("vacuity-guard:valid-seed-rejected", "the unmutated seed stream %s/%s was rejected by %s: %v", c.Seed, c.Comp, c.Target, o.err)
 	}
 }
 
@@ -298,7 +302,7 @@ func containersIntact(kind string, s []byte) (ok bool) {
 
 var patchSeedNames = []string{"noold", "tree", "mixed", "whole", "multi", "bsdiff"}
 var sigSeedNames = []string{"noold", "whole", "multi", "tree", "sig5"}
-var pairSeedNames = []string{"noold", "mixed", "multi"}
+var pairSeedNames = []string{"noold", "tree", "mixed", "whole", "multi", "bsdiff"}
 
 func (e *env) fieldMuts(fl *flat, withHdr bool) [][]Mut {
 	var out [][]Mut
@@ -318,8 +322,10 @@ func (e *env) fieldMuts(fl *flat, withHdr bool) [][]Mut {
 	return out
 }
 
-// pairMuts: all unordered pairs of field mutations at two different
-// (message, field) positions within one series.
+// pairMuts: all unordered pairs of mutations within one series (one file's
+// messages): two field mutations at different (message, field) positions, or one
+// field mutation combined with one structural mutation (delete / duplicate /
+// swap) of a message of the same series.
 func (e *env) pairMuts(fl *flat) [][]Mut {
 	var out [][]Mut
 	bySeries := map[int][]Mut{}
@@ -331,12 +337,33 @@ func (e *env) pairMuts(fl *flat) [][]Mut {
 		}
 		bySeries[si] = append(bySeries[si], fl.setMuts(i)...)
 	}
+	for _, m := range fl.structMuts() {
+		si := fl.series[m.Msg]
+		if m.Kind == "swap" && fl.series[m.Msg+1] != si {
+			continue
+		}
+		bySeries[si] = append(bySeries[si], m)
+	}
 	for _, si := range order {
 		ms := bySeries[si]
 		for a := 0; a < len(ms); a++ {
 			for b := a + 1; b < len(ms); b++ {
-				if ms[a].Msg == ms[b].Msg && ms[a].Field == ms[b].Field {
-					continue
+				sa, sb := ms[a].Kind == "set", ms[b].Kind == "set"
+				switch {
+				case sa && sb:
+					if ms[a].Msg == ms[b].Msg && ms[a].Field == ms[b].Field {
+						continue
+					}
+				case sa || sb:
+					st := ms[a]
+					if sa {
+						st = ms[b]
+					}
+					if st.Kind == "del" && ms[a].Msg == ms[b].Msg {
+						continue // editing a message that is then deleted
+					}
+				default:
+					continue // two structural mutations: index meaning would be ambiguous
 				}
 				out = append(out, []Mut{ms[a], ms[b]})
 			}
@@ -346,6 +373,12 @@ func (e *env) pairMuts(fl *flat) [][]Mut {
 }
 
 func body(w *runner.W) {
+	// a worker restarted after a crash inherits the scratch directory of the dead one
+	if ents, err := os.ReadDir(w.Scratch()); err == nil {
+		for _, en := range ents {
+			os.RemoveAll(filepath.Join(w.Scratch(), en.Name()))
+		}
+	}
 	e := &env{w: w, seeds: newSeedSet(filepath.Join(w.Scratch(), "seeds"), w.Seed), ov: map[string]*ovSeed{}, g: &guard{}}
 	run := e.runCase
 	thorough := !w.Quick()
@@ -357,14 +390,17 @@ func body(w *runner.W) {
 		Done()
 		Note(string, any)
 	}
+	t0 := time.Now()
 	finish := func(s doer, complete bool, counts map[string]int) {
+		s.Note("one_worker_wall_s", fmt.Sprintf("%.1f", time.Since(t0).Seconds()))
+		t0 = time.Now()
 		for k, v := range counts {
 			s.Note(k, v)
 		}
 		if complete {
 			s.Done()
 		} else {
-			s.Note("stopped", fmt.Sprintf("enumeration stopped after %d hung cases in one worker", maxHangs))
+			s.Note("stopped", fmt.Sprintf("enumeration stopped: %d hung cases in this sub-check, %d in this worker", e.g.subHangs, e.g.hangs))
 		}
 	}
 
@@ -372,6 +408,7 @@ func body(w *runner.W) {
 	// worker, and a restarted worker re-runs everything declared before) -------
 	opt := runner.NewSub(w, "optimize", run, runner.Journal())
 	if opt.Active() {
+		e.g.beginSub()
 		counts := map[string]int{}
 		complete := func() bool {
 			targets := []string{"optimize"}
@@ -422,6 +459,7 @@ func body(w *runner.W) {
 	// ---- patcher: message-level mutations ---------------------------------
 	af := runner.NewSub(w, "apply-field", run, runner.Journal())
 	if af.Active() {
+		e.g.beginSub()
 		counts := map[string]int{}
 		complete := func() bool {
 			for _, name := range patchSeedNames {
@@ -447,6 +485,7 @@ func body(w *runner.W) {
 	// ---- patcher: truncations ------------------------------------------------
 	at := runner.NewSub(w, "apply-trunc", run, runner.Journal())
 	if at.Active() {
+		e.g.beginSub()
 		counts := map[string]int{}
 		complete := func() bool {
 			for _, name := range patchSeedNames {
@@ -471,6 +510,7 @@ func body(w *runner.W) {
 	// ---- signature -------------------------------------------------------------
 	sf := runner.NewSub(w, "sig-field", run, runner.Journal())
 	if sf.Active() {
+		e.g.beginSub()
 		counts := map[string]int{}
 		complete := func() bool {
 			for _, name := range sigSeedNames {
@@ -502,6 +542,7 @@ func body(w *runner.W) {
 	}
 	st := runner.NewSub(w, "sig-trunc", run, runner.Journal())
 	if st.Active() {
+		e.g.beginSub()
 		counts := map[string]int{}
 		complete := func() bool {
 			for _, name := range sigSeedNames {
@@ -524,6 +565,7 @@ func body(w *runner.W) {
 	// ---- overlay ---------------------------------------------------------------
 	of := runner.NewSub(w, "overlay-field", run, runner.Journal())
 	if of.Active() {
+		e.g.beginSub()
 		counts := map[string]int{}
 		complete := func() bool {
 			for _, name := range ovSeedNames {
@@ -550,6 +592,7 @@ func body(w *runner.W) {
 	}
 	ot := runner.NewSub(w, "overlay-trunc", run, runner.Journal())
 	if ot.Active() {
+		e.g.beginSub()
 		counts := map[string]int{}
 		complete := func() bool {
 			for _, name := range ovSeedNames {
@@ -573,6 +616,7 @@ func body(w *runner.W) {
 	}
 	ap := runner.NewSub(w, "apply-pairs", run, runner.Journal())
 	if ap.Active() {
+		e.g.beginSub()
 		counts := map[string]int{}
 		complete := func() bool {
 			for _, name := range pairSeedNames {
